@@ -19,7 +19,7 @@ def opndOk (nTop : Nat) (nLoc : Nat) : Opnd → Bool
   | .slot _ => true
 
 def effectOk (nTop nObs nVars : Nat) (inHandler : Bool) : Effect → Bool
-  | .setVar v _ | .modifyVar v _ | .updateVar v _ | .replaceVar v _ | .replaceWithVar v _ => v < nVars
+  | .setVar v _ | .modifyVar v _ | .updateVar v _ | .replaceVar v _ | .replaceWithVar v _ | .dropVar v => v < nVars
   | .readObs o | .disallow o => o < nObs
   | .stabilise | .panic => false
   | .unsubscribe _ _ | .subscribe _ _ => !inHandler
@@ -38,6 +38,16 @@ def instrOperands : Instr → List Opnd
   | .mapOp (.fm _ x) | .mapOp (.fold _ _ _ x) | .mapOp (.part _ x) => [x]
   | .mapOp (.merge _ x y) => [x, y]
   | _ => []
+
+/-- how many nodes one template instruction creates (`none`: not statically known) -/
+def instrNodeCount : Instr → Option Nat
+  | .cutoff _ _ | .publish _ _ => some 0
+  | .bind _ _ => some 2
+  | .memoCall _ _ => none
+  | .mapOp (.merge ..) => some 5
+  | .mapOp _ => some 3
+  | .perKey .. => some 4
+  | _ => some 1
 
 def templateOk (nTop : Nat) (t : Template) : Bool :=
   let (ok, nLoc) := t.instrs.foldl (fun (acc : Bool × Nat) i =>
@@ -58,6 +68,8 @@ def wellFormed (h : History) : Option String := Id.run do
   let d := h.defs
   let hasScoped := d.bodies.any fun (_, _, alts) => alts.any fun t => t.instrs.any fun i =>
     match i with | .scopedVar _ => true | _ => false
+  let mut nStatic := 0
+  let mut staticKnown := true
   let mut nTop := 0
   let mut nObs := 0
   let mut nVars := 0
@@ -90,11 +102,19 @@ def wellFormed (h : History) : Option String := Id.run do
               | .bind b2 _ => if !(b2 < b) then return some s!"action {idx}: body b{b} nests a later body"
               | _ => pure ()
       | _ => pure ()
+      if staticKnown then
+        match instrNodeCount i with
+        | some c => nStatic := nStatic + c
+        | none => staticKnown := false
       match i with
       | .cutoff _ _ => pure ()
       | .var _ => nTop := nTop + 1; nVars := nVars + 1
       | _ => nTop := nTop + 1
-    | .observe n => if !(opndOk nTop 0 n) then return some s!"action {idx}: observe of a missing node" else nObs := nObs + 1
+    | .observe n =>
+      -- `#k` names the k-th node ever created: allowed for the nodes the top-level instructions created before
+      -- the first stabilise (e.g. the input node of a map operator, which a user program holds a handle of)
+      let okAbs := match n with | .abs k => k < nStatic | _ => false
+      if !(opndOk nTop 0 n || okAbs) then return some s!"action {idx}: observe of a missing node" else nObs := nObs + 1
     | .cloneObs o | .dropObs o | .disallow o => if !(o < nObs) then return some s!"action {idx}: no such observer"
     | .subscribe o hid =>
       if !(o < nObs) then return some s!"action {idx}: no such observer"
@@ -110,6 +130,7 @@ def wellFormed (h : History) : Option String := Id.run do
       if !(opndOk nTop 0 e && opndOk nTop 0 c) then return some s!"action {idx}: adddep operand missing"
       pending := pending.filter fun (pe, drv) => !(pe == e && c == .outer drv)
     | .stabilise =>
+      staticKnown := false
       match pending with
       | (_, drv) :: _ => return some s!"action {idx}: driver n{drv} mutates an expert node it is not a dependency of"
       | [] => pure ()
